@@ -261,7 +261,11 @@ def render(scratch, template_path, vacuity=False):
             if nd:
                 tr.append("%d `#[default]` variant markers dropped (belong to the dropped derive)" % nd)
             if getattr(p, "pubfields", None) == "yes":
-                item, n = re.subn(r"(?m)^(\s+)(?!pub\b)(\w+\s*:)", r"\1pub \2", item)
+                # only inside the struct body (not the bounds of a where clause in front of it)
+                body_at = next((i_ for i_, ch_ in enumerate(item) if ch_ == "{" and match_brace(item, i_) == len(item.rstrip()) - 1), 0)
+                head_, body_ = item[:body_at], item[body_at:]
+                body_, n = re.subn(r"(?m)^(\s+)(?!pub\b)(\w+\s*:)", r"\1pub \2", body_)
+                item = head_ + body_
                 tr.append("%d private fields made `pub` (Verus treats a type with private fields as opaque in contracts of pub fns)" % n)
             out.append("// ---- item verbatim from %s:%d-%d ----" % (p.file, li + 1, endl + 1))
             out.append(item.rstrip("\n"))
@@ -367,6 +371,33 @@ def render(scratch, template_path, vacuity=False):
                 raise Undecided("%s: declared wrapper `%s` no longer matches the source (unsupported construct left in place)" % (what, shown))
             rep["transformations"].append("wrapper applied x%d: `%s` => `%s`" % (n, shown, repl))
             body2 = body3
+        if re.search(r"\(\s*mut\s+self\b", sig2):
+            # Verus does not support a `mut self` parameter. `fn f(mut self, ..) { B }` is sugar for binding the receiver
+            # to a mutable local: written out as `fn f(self, ..) { let mut verif_self = self; B[self := verif_self] }`
+            # (every `self` token of the body outside comments / strings; `Self` untouched). In the contract `self` keeps
+            # meaning the value the function was called with.
+            sig2 = re.sub(r"\(\s*mut\s+self\b", "(self", sig2, count=1)
+            ob_ = body2.index("{")
+            pieces, i_ = [], ob_ + 1
+            nrep = 0
+            buf = []
+            while i_ < len(body2):
+                j_ = _lex_skip(body2, i_)
+                if j_ is not None:
+                    buf.append(body2[i_:j_]); i_ = j_
+                    continue
+                m_ = re.match(r"[A-Za-z_][A-Za-z_0-9]*", body2[i_:])
+                if m_:
+                    w_ = m_.group(0)
+                    if w_ == "self":
+                        buf.append("verif_self"); nrep += 1
+                    else:
+                        buf.append(w_)
+                    i_ += len(w_)
+                    continue
+                buf.append(body2[i_]); i_ += 1
+            body2 = body2[:ob_ + 1] + "\n        let mut verif_self = self;" + "".join(buf)
+            rep["transformations"].append("`mut self` parameter written out: `(self, ..)` + `let mut verif_self = self;` and %d `self` tokens of the body renamed (Verus does not support `mut self`)" % nrep)
         piece = sig2 + "\n" + "\n".join(contract) + ("\n" if contract else "") + body2
         out.append("// ---- verbatim from %s:%d-%d (sha256 %s) ----" % (p.file, a + 1, e + 1, rep["sha256_verbatim"][:16]))
         out.append(piece)
